@@ -2,6 +2,7 @@
 the log's contents after a reopen, the checksum covers the record, append orders its writes."""
 from ..cfg import Body
 from ..report import where
+from ..facts import in_module
 from .. import orderdom as od
 
 LEVEL = "other"
@@ -75,7 +76,7 @@ def run(ctx, F, cg):
     adt = F.adt("persistence::wal::WalRecord")
     fields = [f[0] for f in adt["variants"][0]["fields"]]
     reads_ = set()
-    par = cg.reach([cc["path"]], stop=lambda p: not p.startswith("samyama::persistence::wal::"))
+    par = cg.reach([cc["path"]], stop=lambda p: not in_module(p, "samyama::persistence::wal::"))
     for p in par:
         if p in F.fns:
             for x in F.fns[p]["r"] + F.fns[p]["w"]:
